@@ -119,8 +119,8 @@ def add_counts(total, res):
 # part 3: the store inside a wallet database (trace validation)
 
 STORE_MC = [("MC_WalletStore_history.cfg", True), ("MC_WalletStore_accounts.cfg", True), ("MC_WalletStore.cfg", False)]
-STORE_ACTIONS = ["DoFresh", "DoMove", "DoUpdate", "DoUpdateErr", "DoProve", "DoTake", "DoCancel", "DoLock", "DoBlock",
-                 "DoScan", "DoRewind"]
+STORE_ACTIONS = ["DoFresh", "DoMove", "DoUpdate", "DoProve", "DoTake", "DoCancel", "DoLock", "DoBlock",
+                 "DoScan", "DoRewind"]   # (DoUpdateErr is a refusal: it changes nothing, TLC counts no state for it)
 
 
 def store_model(ctx, d):
